@@ -312,3 +312,36 @@ class LdmWorld(World):
         if fn is None:
             return "NOHOOK"
         return self._do(fn, oid)
+
+
+# ----------------------------------------------------------------------------------------------------------------
+# exploration driver shared by C12/C13/C14: all parts of a check in ONE process pool
+# ----------------------------------------------------------------------------------------------------------------
+def _explore_job(args):
+    from mc import explore as X
+    factory, fargs, pname, prefix, depth, kw = args
+    return pname, X.bfs(factory(*fargs), depth, prefix=prefix, **kw)
+
+
+def explore_parts(factory, plist, split, procs=16, **kw):
+    """plist: [dict(name=..., fargs=(...), depth=n)].  The tree below every distinct state at depth `split` of every
+    part is one pool job (`mc.explore.bfs(prefix=...)`); states are de-duplicated globally up to the split depth and
+    inside each job below it (duplicates across jobs cost time, never coverage).  Returns {name: merged Result}."""
+    import multiprocessing as mp
+    from mc import explore as X
+    kw.setdefault("xcheck_every", 97)
+    results, jobs = {}, []
+    for p in plist:
+        model = factory(*p["fargs"])
+        sd = min(split, p["depth"])
+        head = X.bfs(model, sd, **kw)
+        head.complete, head.cap_hit = True, None
+        results[p["name"]] = head
+        if p["depth"] > sd:
+            jobs += [(factory, p["fargs"], p["name"], pre, p["depth"], kw) for pre in X._prefixes(model, sd)]
+    jobs.sort(key=lambda j: (j[2], repr(j[3])))
+    if jobs:
+        with mp.Pool(procs) as pool:
+            for pname, r in pool.imap_unordered(_explore_job, jobs, chunksize=1):
+                results[pname].merge(r)
+    return results
